@@ -12,7 +12,7 @@
    is established by the correspondence run (harness/c15.py), not by these theorems: the dimension-sweep
    data structures are not modelled. *)
 From Coq Require Import List QArith Bool SetoidList Sorted Permutation.
-From DV Require Import Model.C15_HV Proofs.C15_HV.
+From DV Require Import Model.C15_HV Model.C15_Sweep Proofs.C15_HV Proofs.C15_Sym Proofs.C15_Sweep.
 Import ListNotations.
 Local Open Scope Q_scope.
 
@@ -117,6 +117,53 @@ Theorem C15_indicator_least_loss : forall w vals refo, vals <> [] ->
   (forall j, 0 <= loss j).
 Proof. exact indicator_least_loss. Qed.
 Print Assumptions C15_indicator_least_loss.
+
+(* symmetries: exchanging two adjacent coordinates (so slicing on another coordinate gives the same value)
+   and translating points and reference together *)
+Theorem C15_hv_swap_adjacent : forall k ref pts, (S k < length ref)%nat ->
+  hv (swap_ref k ref) (map (swap_at k) pts) == hv ref pts.
+Proof. exact hv_swap_at. Qed.
+Print Assumptions C15_hv_swap_adjacent.
+
+Theorem C15_hv_translate : forall t ref ref' pts pts',
+  length ref = length t -> length ref' = length t ->
+  sh t ref ref' -> Forall2 (sh t) pts pts' -> hv ref' pts' == hv ref pts.
+Proof. exact hv_translate. Qed.
+Print Assumptions C15_hv_translate.
+
+(* The code paths for ONE and TWO objectives, transcribed from the sources (Model/C15_Sweep.v), compute hv:
+   _hv.c for every input (its filter drops the points that do not strictly dominate the reference), for
+   whatever order qsort gives to equal second coordinates; pyhv.py for points weakly dominating the
+   reference. *)
+Theorem C15_c_extension_2obj : forall rx ry pts, chv2 rx ry pts == hv [rx; ry] (map pt2 pts).
+Proof. exact chv2_correct. Qed.
+Print Assumptions C15_c_extension_2obj.
+
+Theorem C15_c_extension_2obj_any_tie_order : forall rx ry pts sorted,
+  Permutation sorted (c_filter2 rx ry pts) -> ysorted sorted ->
+  chv2_sorted rx ry sorted == hv [rx; ry] (map pt2 pts).
+Proof. exact chv2_sorted_correct. Qed.
+Print Assumptions C15_c_extension_2obj_any_tie_order.
+
+Theorem C15_pyhv_2obj : forall rx ry pts,
+  (forall p, In p pts -> fst p <= rx /\ snd p <= ry) -> pyhv2 rx ry pts == hv [rx; ry] (map pt2 pts).
+Proof. exact pyhv2_correct. Qed.
+Print Assumptions C15_pyhv_2obj.
+
+Theorem C15_c_extension_1obj : forall r xs, chv1 r xs == hv [r] (map sing xs).
+Proof. exact chv1_correct. Qed.
+Print Assumptions C15_c_extension_1obj.
+
+Theorem C15_pyhv_1obj : forall r xs,
+  (forall x, In x xs -> x <= r) -> pyhv1 r xs == hv [r] (map sing xs).
+Proof. exact pyhv1_correct. Qed.
+Print Assumptions C15_pyhv_1obj.
+
+(* the hypothesis of C15_pyhv_2obj is needed: a point beyond the reference makes pyhv wrong (out of the
+   property's scope, recorded for completeness) *)
+Example C15_pyhv_2obj_needs_domination :
+  ~ pyhv2 1 1 [(0, 0); (2, (-1))] == hv [1; 1] (map pt2 [(0, 0); (2, (-1))]).
+Proof. vm_compute. discriminate. Qed.
 
 (* non-vacuity: the input on which pyhv was wrong before the repair (12 instead of 20), a staircase,
    a population *)
